@@ -66,24 +66,25 @@ func (s *MultipartRequest) UnmarshalBinary(data []byte) error {
 	var req util.Message
 	switch s.Type {
 	case MultipartType_Aggregate:
-		req = s.Body.(*AggregateStatsRequest)
+		req = NewAggregateStatsRequest()
 	case MultipartType_Desc:
 		break
 	case MultipartType_Flow:
-		req = s.Body.(*FlowStatsRequest)
+		req = NewFlowStatsRequest()
 	case MultipartType_Port:
-		req = s.Body.(*PortStatsRequest)
+		req = NewPortStatsRequest()
 	case MultipartType_Table:
 		break
 	case MultipartType_Queue:
-		req = s.Body.(*QueueStatsRequest)
+		req = NewQueueStatsRequest()
 	case MultipartType_Experimenter:
 		break
 	}
 	if req == nil {
 		return fmt.Errorf("unsupported MultipartRequest type: %d", s.Type)
 	}
-	return err
+	s.Body = req
+	return req.UnmarshalBinary(data[n:])
 }
 
 // ofp_multipart_reply 1.3
